@@ -8,7 +8,7 @@ PROP_FILE = "Properties/C12.v"
 
 SERR = {"uri_count": 1, "email": 2, "scheme": 3, "unescape": 4, "format": 5, "unsupported": 6,
         "denied": 7, "datacenter": 8, "trust_domain": 9}
-CERR = {"one_active": "EOneActive", "missing_id": "EMissingID", "config_cas": "EConfigCAS",
+CERR = {"one_active": "EOneActive", "active_overwritten": "EActiveOverwritten", "missing_id": "EMissingID", "config_cas": "EConfigCAS",
         "invalid_op": "EInvalidOp"}
 
 
